@@ -16,6 +16,8 @@ import (
 	"github.com/google/gce-tcb-verifier/cmd"
 	"github.com/google/gce-tcb-verifier/cmd/output"
 	"github.com/google/gce-tcb-verifier/endorse"
+	"github.com/google/gce-tcb-verifier/keys"
+	styp "github.com/google/gce-tcb-verifier/sign/types"
 	"github.com/google/gce-tcb-verifier/sev"
 	"github.com/google/gce-tcb-verifier/tdx"
 	sgpb "github.com/google/go-sev-guest/proto/sevsnp"
@@ -45,6 +47,14 @@ type Req struct {
 	Retries         int
 	Svsm            []byte
 	ViaCLI          bool
+	// Reuse, when set (library path), is an endorse.Context an earlier run already went through.
+	Reuse *endorse.Context
+	// SeedVCSs pre-populates Context.VCSs (the documented multi-back-end transition field).
+	SeedVCSs []endorse.VersionControl
+	// Interleave, when set (library path), runs once in the middle of signing: at the moment
+	// SignDoc asks the certificate authority for the CA bundle (after it has read the primary key
+	// version and its certificate, before it signs). It models a concurrent operator.
+	Interleave func()
 }
 
 func (q Req) String() string {
@@ -104,6 +114,20 @@ func Endorse(r *core.Run, a *worlda.Authority, vcs endorse.VersionControl, q Req
 }
 
 func endorseLib(a *worlda.Authority, vcs endorse.VersionControl, q Req) error {
+	ec := q.Reuse
+	if ec == nil {
+		ec = BuildContext(vcs, q)
+	} else {
+		// a long-lived caller re-using its endorse.Context for another run: only the mode and the
+		// per-run inputs change
+		ec.DryRun, ec.MeasurementOnly, ec.SnapshotDir, ec.CandidateName, ec.Timestamp = q.DryRun, q.MeasurementOnly, q.SnapshotDir, q.Candidate, q.Timestamp
+		if ec.VCS == nil {
+			ec.VCS = vcs
+		}
+	}
+	if len(q.SeedVCSs) > 0 {
+		ec.VCSs = append([]endorse.VersionControl(nil), q.SeedVCSs...)
+	}
 	v, err := a.View()
 	if a.Decorate {
 		v, err = a.DecoratedView()
@@ -111,7 +135,31 @@ func endorseLib(a *worlda.Authority, vcs endorse.VersionControl, q Req) error {
 	if err != nil {
 		return err
 	}
+	if q.Interleave != nil {
+		if kc, kerr := keys.FromContext(v.Ctx); kerr == nil {
+			kc.CA = &interleavingCA{CertificateAuthority: kc.CA, f: q.Interleave}
+		}
+	}
 	ctx := output.NewContext(v.Ctx, &output.Options{Quiet: true, Overwrite: q.Overwrite})
+	return endorse.VirtualFirmware(endorse.NewContext(ctx, ec))
+}
+
+// interleavingCA runs f once, inside the first CABundle call.
+type interleavingCA struct {
+	styp.CertificateAuthority
+	f func()
+}
+
+func (c *interleavingCA) CABundle(ctx context.Context, name string) ([]byte, error) {
+	if f := c.f; f != nil {
+		c.f = nil
+		f()
+	}
+	return c.CertificateAuthority.CABundle(ctx, name)
+}
+
+// BuildContext makes the endorse.Context a library caller would build for q.
+func BuildContext(vcs endorse.VersionControl, q Req) *endorse.Context {
 	ec := &endorse.Context{
 		Image: q.Image.Bytes, ImageName: q.Image.Name, ClSpec: q.ClSpec, Commit: q.Commit,
 		CandidateName: q.Candidate, Timestamp: q.Timestamp, VCS: vcs, CommitRetries: q.Retries,
@@ -127,7 +175,7 @@ func endorseLib(a *worlda.Authority, vcs endorse.VersionControl, q Req) error {
 	if q.TDX {
 		ec.Tdx = &tdx.EndorsementRequest{MachineShapes: q.Shapes, IncludeEarlyAccept: q.EarlyAccept}
 	}
-	return endorse.VirtualFirmware(endorse.NewContext(ctx, ec))
+	return ec
 }
 
 func endorseCLI(a *worlda.Authority, vcs endorse.VersionControl, q Req, scratch string) error {
